@@ -1477,14 +1477,20 @@ where
                     ("splice", b)
                 }
             };
+            crate::conc::watch::enter(format!("{tname}/{codec}/{class}: {}", hex::encode(&input)));
             let (dec, decoded): (Dec, Option<T>) = match codec {
                 "bytes" => decode_bytes(&val, &input),
                 "bare" => decode_bare(&val, &input),
                 _ => match std::str::from_utf8(&input) {
                     Ok(st) => decode_json(&val, st),
-                    Err(_) => (Dec::Err, None),
+                    // not UTF-8: the byte-oriented front ends still see it
+                    Err(_) => agree(
+                        dec_of(&val, guard(|| serde_json::from_slice::<T>(&input).map_err(|e| e.to_string()))),
+                        vec![("serde_json::from_reader", dec_of(&val, guard(|| serde_json::from_reader::<_, T>(std::io::Cursor::new(input.clone())).map_err(|e| e.to_string()))))],
+                    ),
                 },
             };
+            crate::conc::watch::leave();
             let (pts, zero) = match &decoded {
                 Some(x) => judge_decoded(x, layout, group),
                 None => ("-".to_string(), false),
